@@ -431,6 +431,15 @@ func runE1(c *vf.Ctx, id string) {
 		seedDeadline = 8 * time.Minute
 	}
 	box, file := e1Seeds()
+	for _, f := range e1SeedCache.undecodable {
+		if !e1KnownUndecodable[f] {
+			c.Cap("testdata file " + f + " is rejected by the decoder on this tree: the states around it are not explored")
+		}
+	}
+	if len(e1SeedCache.unencodable) > 0 {
+		c.Cap("constructed instances that do not encode on this tree (no seed): " + strings.Join(e1SeedCache.unencodable, ","))
+	}
+	c.Set("testdata_files_rejected_by_decoder", e1SeedCache.undecodable)
 	types := map[string]bool{}
 	for _, s := range box {
 		types[s.Type] = true
